@@ -13,7 +13,7 @@ from tangermeme.tools.fimo import fimo
 from tangermeme.tools import fimo as F
 import math
 
-TMP = tempfile.mkdtemp(prefix="c12-", dir=os.environ.get("VERIF_SCRATCH", "/tmp"))
+TMP = base.mkd("c12-")
 LET = "ACGT"
 
 
